@@ -122,10 +122,18 @@ def evaluate(case):
         violating = worst is not None
         if at_edge:
             nontrivial = True
-        r = O.encode(smi, strict=True)
+        attr = bool(case.get("attribute"))
+        r = O.encode(smi, strict=True, attribute=attr)
         if r[0] == "exc":
             fail = Fail("strict:" + r[1], smiles=smi[:300], error=r[2])
             break
+        if r[0] == "ok" and attr:
+            # the verdict must not depend on the attribution being asked for
+            classes.add("attribute_flag")
+            if not (isinstance(r[1], tuple) and len(r[1]) == 2 and isinstance(r[1][0], str)):
+                fail = Fail("strict:attributed_result_shape", smiles=smi[:300], got=repr(r[1])[:200])
+                break
+            r = ("ok", r[1][0])
         raised = r[0] == "err"
         classes.add("violating" if violating else "conforming")
         if raised != violating:
@@ -192,7 +200,7 @@ def gen_case(ch):
                 t[key] = max(0, u + ch.pick([-1, 0, 0, 1]))
         steps.append(t)
     return dict(smiles=w["smiles"], truth=truth, steps=steps, mutate_passed=[ch.weighted([(6, 0), (1, 1), (1, 2)]) for _ in steps],
-                rejected_update=[(ch.int(1, 4) if ch.bool(12) else 0) for _ in steps])
+                rejected_update=[(ch.int(1, 4) if ch.bool(12) else 0) for _ in steps], attribute=ch.bool(20))
 
 
 EXOTIC = ["c1cccc:[GeH]:1", "c1cc:[GeH]:[GeH]:c1", "c1ccc:[SnH2]:1", "C:[Ge]:C", "[SbH]1:c:c:c:c:1", "c1cc[bi]c1", "[GeH]1:C:C:C:C:1",
